@@ -325,9 +325,12 @@ def main():
             write_evidence(pid, cfg, a.tier, seed, ledger, bounded, units, kf, violations, undecided, notes, wall, rc)
         # summary
         nd = sum(1 for o in ledger.values() if o["status"] == "discharged")
-        print("%s tier=%s obligations=%d discharged=%d failed=%d known=%d bounded=%d undecided=%d wall=%.1fs" % (
-            pid, a.tier, len([l for l in ledger if l not in kf]), len([l for l in ledger if l not in kf and ledger[l]["status"] == "discharged"]),
-            len(violations), len([l for l in failed if l in kf]), len(bounded), len(undecided), wall))
+        proof_labs = [l for l in ledger if l not in kf and ledger[l].get("tag") != "W"]
+        wit_labs = [l for l in ledger if ledger[l].get("tag") == "W" and l not in kf]
+        print("%s tier=%s obligations=%d discharged=%d failed=%d known=%d bounded=%d witness=%d/%d undecided=%d wall=%.1fs" % (
+            pid, a.tier, len(proof_labs), len([l for l in proof_labs if ledger[l]["status"] == "discharged"]),
+            len(violations), len([l for l in failed if l in kf]), len(bounded),
+            len([l for l in wit_labs if ledger[l]["status"] == "discharged"]), len(wit_labs), len(undecided), wall))
         if os.environ.get("VF_VERBOSE"):
             for lab, o in sorted(ledger.items()):
                 print("  %-44s %-10s %s %s" % (lab, o["status"], o.get("tag"), o.get("tool")))
@@ -348,8 +351,12 @@ def twin_for(cfg, lab, replay_info):
 
 
 def write_evidence(pid, cfg, tier, seed, ledger, bounded, units, kf, violations, undecided, notes, wall, rc):
-    counted = {l: o for l, o in ledger.items() if l not in kf}
+    # proof-level counts: contract obligations (Verus, tag P) and complete Kani harnesses (tag C) only; witness inputs (tag W: concrete
+    # inputs replayed on the real crate) and bounded harnesses are listed separately and never counted as proved
+    counted = {l: o for l, o in ledger.items() if l not in kf and o.get("tag") != "W"}
     discharged = [l for l, o in counted.items() if o["status"] == "discharged"]
+    witness_inputs = [dict(obligation=l, status=o["status"], test=o.get("harness"), also_contract_clause=False) for l, o in sorted(ledger.items()) if o.get("tag") == "W"]
+    witness_inputs += [dict(obligation=l, status=o.get("witness_status"), test=None, also_contract_clause=True) for l, o in sorted(ledger.items()) if o.get("tag") != "W" and o.get("witness_status")]
     trusted = list(cfg.get("trusted", []))
     lifts, items, rewrites = [], [], {}
     fn_times = {}
@@ -383,6 +390,8 @@ def write_evidence(pid, cfg, tier, seed, ledger, bounded, units, kf, violations,
             rewrites_applied=rewrites,
             lifted_expressions_trusted=lifts,
             bounded=[dict(obligation=l, status=o["status"], bound=o.get("bound"), harness=o.get("harness"), solver_s=o.get("time")) for l, o in sorted(bounded.items())],
+            witness_inputs=witness_inputs,
+            witness_note="concrete inputs / histories taken from the property statement, run with cargo test on a scratch copy of the real crate on every check; not proof, not counted in obligations/discharged",
             known_finding_obligations=sorted(kf.keys()),
             backends=sorted(set(o.get("tool") or "" for o in ledger.values())),
             solver_time_s=round(smt_ms / 1000.0 + sum((o.get("time") or 0) for o in ledger.values() if o.get("tool", "").startswith("kani")), 3),
